@@ -483,6 +483,60 @@ class CacheWrapperC(ClassContract):
     }
 
 
+# ---- copy mode (immutable_warranty='copy'): nothing is serialised, so the wrapper itself has to keep a PRIVATE object --
+#      CacheDataset.__getitem__ hands the very object it stored to the caller on a miss
+def _cw_copy_fields(self, eng, st):
+    # the fields are what the real __init__('copy') sets; the (empty) dict is replaced by an arbitrary one
+    me = InstV(eng.self_oid, '_CacheWrapper')
+    eng.sinks.append([])
+    res = eng.inline_call('core:_CacheWrapper.__init__', [me, StrV('copy')], {}, st)
+    eng.sinks.pop()
+    (st2, _), = res
+    st.heap.update(st2.heap)
+    st.pc[:] = st2.pc
+    f = dict(st.heap[eng.self_oid])
+    doid = eng.new_oid()
+    DOM = z3.Function('DOM!%d' % doid, smt.Int, smt.Bool)
+    STO = z3.Function('STO!%d' % doid, smt.Int, smt.Obj)
+    st.heap[doid] = {'dom': (lambda r_: DOM(r_)), 'sto': (lambda r_: STO(r_))}
+    f['cache'] = IntDictV(doid)
+    return f
+
+
+def _cw_copy_set_post(S, o):
+    me = S.st.heap[S.eng.self_oid]
+    c = S.st.heap[me['cache'].oid]
+    k, v = S.old.key, S.old.value
+    if o.kind not in ('normal', 'return'):
+        return [('cachewrapper:store-does-not-raise', smt.F)]
+    return [('C09:copy-mode-stores-a-private-copy-not-the-object-the-caller-keeps',
+             z3.And(c['dom'](k), LOADED(c['sto'](k))))]      # LOADED: a fresh object nobody else holds (terms compare by VALUE)
+
+
+def _cw_copy_get_post(S, o):
+    me = S.eng.entry_heap[S.eng.self_oid]
+    c = S.eng.entry_heap[me['cache'].oid]
+    k = S.old.item
+    if o.kind == 'return':
+        return [('C09:copy-mode-read-returns-a-fresh-copy-of-the-stored-object',
+                 z3.And(c['dom'](k), o.value.t == DESER(c['sto'](k)), LOADED(o.value.t)))]
+    return [('cachewrapper:KeyError-iff-absent', z3.And(z3.Not(c['dom'](k)), exc_is(o.exc, S.eng.hier, 'KeyError')))]
+
+
+class CacheWrapperCopyModeC(ClassContract):
+    cls = '_CacheWrapper'
+    fields = _cw_copy_fields
+
+    def view(self, eng, st):
+        return None
+    methods = {
+        '__setitem__': [Variant('copy-mode', params={'key': 'int', 'value': 'obj'}, post=_cw_copy_set_post, hooks=cache_hooks(),
+                                props=('C09',), inline=('__setitem__',))],
+        '__getitem__': [Variant('copy-mode', params={'item': 'int'}, post=_cw_copy_get_post, hooks=cache_hooks(),
+                                props=('C09',), inline=('__getitem__',))],
+    }
+
+
 class CacheWrapperInitC(ClassContract):
     cls = '_CacheWrapper'
 
@@ -587,8 +641,12 @@ def _dcw_init_post(S, o):
                  z3.BoolVal(not opened and 'cache' not in me))]
     ok_open = len(opened) == 1 and opened[0][0] and opened[0][0][0] is env['cache_dir'] \
         and isinstance(opened[0][1].get('eviction_policy'), StrV) and opened[0][1]['eviction_policy'].s == 'none'
+    # the assumed contract of diskcache (values are pickled on store and unpickled -- fresh -- on every read) is the one of
+    # its DEFAULT storage back end: the cache must be opened with no other option than the disabled eviction
+    plain = len(opened) == 1 and set(opened[0][1]) == {'eviction_policy'} and len(opened[0][0]) == 1
     return [('C11:accepts-otherwise', z3.Or(z3.Not(occupied), reuse)),
             ('C11:opens-exactly-that-directory-with-eviction-disabled', z3.BoolVal(bool(ok_open))),
+            ('C09:the-cache-uses-the-default-(pickling)-storage-of-diskcache', z3.BoolVal(bool(plain))),
             ('C11:remembers-clear-and-reuse', z3.BoolVal(me.get('clear') is env['clear'] and me.get('reuse') is env['reuse']))]
 
 
@@ -701,7 +759,7 @@ def _mk_dcw(has_cache):
         C.methods['__setitem__'] = [Variant('int', params={'key': 'int', 'value': 'obj'}, post=_dk_set_post,
                                             hooks=_dk_hooks(), props=('C11',), inline=('__setitem__',))]
         C.methods['__init__'] = [Variant('dir=%s' % k, params={'cache_dir': _dir_param(k), 'reuse': 'bool', 'clear': 'bool'},
-                                         post=_dcw_init_post, hooks=_disk_hooks(), props=('C11',)) for k in ('given', 'none')]
+                                         post=_dcw_init_post, hooks=_disk_hooks(), props=('C11', 'C09')) for k in ('given', 'none')]
     return C()
 
 
@@ -730,7 +788,7 @@ class DiskCacheDatasetC(ClassContract):
                                 props=('C11', 'C13'))]}
 
 
-CONTRACTS = [CacheDatasetC(), SerialisersC(), CacheWrapperC(), CacheWrapperInitC(), _mk_dcw(True), _mk_dcw(False), DiskCacheDatasetC()]
+CONTRACTS = [CacheDatasetC(), SerialisersC(), CacheWrapperC(), CacheWrapperInitC(), CacheWrapperCopyModeC(), _mk_dcw(True), _mk_dcw(False), DiskCacheDatasetC()]
 
 
 # =============================================================== C10: eager caching = snapshot (new / from_dataset / Dataset.cache)
